@@ -159,6 +159,7 @@ func (e Float64Engine) FMAScalar(a Tensor, x interface{}, y Tensor) (retVal Tens
 	if useIter {
 		err = execution.MulIterIncrVSF64(dataTensor.Float64s(), scalar, dataReuse.Float64s(), ait, iit)
 		retVal = reuse
+		return
 	}
 
 	execution.MulIncrVSF64(dataTensor.Float64s(), scalar, dataReuse.Float64s())
